@@ -21,7 +21,9 @@ def case_strategy(draw):
     prog["picks"] = draw(gfi_hist.st_picks(3))
     prog["sel"] = draw(gfi_hist.st_selspec())
     prog["newargs"] = draw(gfi_hist.st_newargs(prog["node"], prog["args"], {}))
-    prog["batch"] = draw(st.sampled_from(["keys", "none"]))
+    prog["batch"] = draw(st.sampled_from(["keys", "args", "none"]))
+    if prog["batch"] == "args":
+        prog["op"] = draw(st.sampled_from(["simulate", "importance", "importance"]))
     return prog
 
 
@@ -162,6 +164,29 @@ def check_case(case, ctx=None):
             _num(f"vmap-keys-{op}:score", ei[1], bi[1], case)
             _num(f"vmap-keys-{op}:weight", ei[3], bi[3], case)
         classes.append("vmap:keys")
+    if case["batch"] == "args" and op in ("simulate", "importance") and dyn0 and all(
+        np.shape(x) == np.shape(y) and jnp.asarray(x).dtype == jnp.asarray(y).dtype for x, y in zip(dyn0, dyn_new)
+    ):
+        # jax.vmap over the arguments AND the constrained values (same key): slice i == the unbatched call on
+        # the i-th arguments / values
+        alt = [jnp.asarray(gfi.value_for(*run0.dist_info[p], 0.61)).astype(v.dtype) for p, v in zip(cpaths, cvals)]
+        sets = [(dyn0, cvals), (dyn_new, alt)]
+        bd = [jnp.stack([jnp.asarray(s[0][i]) for s in sets]) for i in range(len(dyn0))]
+        bv = [jnp.stack([s[1][i] for s in sets]) for i in range(len(cvals))]
+        b = jax.vmap(lambda d, v: f(k1, d, v, dyn_new))(bd, bv)
+        for i, (d, v) in enumerate(sets):
+            ei = f(k1, d, v, dyn_new)
+            bi = jax.tree_util.tree_map(lambda x: x[i], b)
+            fin = all(bool(np.all(np.isfinite(np.asarray(x)))) for x in (ei[1], ei[3], bi[1], bi[3]))
+            _cmp(f"vmap-args-{op}:choices", ei[0], bi[0], paths, case)
+            if fin:
+                _num(f"vmap-args-{op}:score", ei[1], bi[1], case)
+                _num(f"vmap-args-{op}:weight", ei[3], bi[3], case)
+                for x, y in zip(ei[2], bi[2]):
+                    _num(f"vmap-args-{op}:retval", x, y, case)
+        classes.append("vmap:args")
+        if cvals:
+            classes.append("vmap:constraint-values")
     # a constraint written as  masked(override) | default  at ONE address: the override wins iff its flag is
     # true, whether the flag is a Python bool, an array, or a tracer under jit / vmap
     if cpaths and not (kinds & {"switch", "or_else", "mix", "mask"}):  # (the overridden address must be visited whatever else is sampled)
